@@ -209,3 +209,32 @@ def C01_amp_in_comment_text(case, params):
     if r["kind"] == "denotation-differs" and all(d[0] in ("order", "comment-order") for d in r["diffs"]):
         return _order_only_mt_imp(dict(c, text="\n".join(out)))
     return False
+
+
+def C01_title_last_column(case, params):
+    """F-C01-title-last-column: a title line whose last character stands exactly in the last significant column (128
+    for MCNP 6.2, 80 for 5.1.60) is read completely but written cut to width - 1 characters.  Feature: the title
+    (tabs expanded, trailing blanks dropped) is exactly `width` columns long.  Ablation: the same file with the last
+    character of the title removed."""
+    import rt
+    c = case["case"]
+    W = c.get("width", 80)
+    lines = c["text"].split("\n")
+    i = 0
+    if lines and lines[0].lower().startswith("message:"):
+        while i < len(lines) and lines[i].strip():
+            i += 1
+        i += 1
+    if i >= len(lines):
+        return False
+    x = lines[i].rstrip("\r").expandtabs(8)[:W].rstrip()
+    if len(x) != W:
+        return False
+    cr = "\r" if lines[i].endswith("\r") else ""
+    out = lines[:i] + [x[:-1] + cr] + lines[i + 1:]
+    r = rt.c01_check(dict(c, text="\n".join(out)))
+    if r is None:
+        return True
+    if r["kind"] == "denotation-differs" and all(d[0] in ("order", "comment-order") for d in r["diffs"]):
+        return _order_only_mt_imp(dict(c, text="\n".join(out)))
+    return False
